@@ -30,6 +30,7 @@ SpecMono(m) == <<m[1], m[2], { <<v, m[3][v]>> : v \in DOMAIN m[3] }>>
 SpecPoly(P) == { SpecMono(m) : m \in P }
 
 NamesOK(e) == e.names = subst
+DepOK(e) == e.dep = ExpectedDep(cfg)
 ParamsOK(e) == ToSetOf(e.params) = ExpectedParams(cfg) /\ Len(e.params) = Cardinality(ExpectedParams(cfg))
 PolyOK(e) == Len(e.poly) = Len(subst) /\
     \A j \in DOMAIN subst : ObsPoly(e.poly[j]) = SpecPoly(ExpectedPoly(cfg, subst[j]))
@@ -39,7 +40,7 @@ RvalsOK(e) == ~e.hasr \/ e.rvals = ExpectedRVals(cfg)
 ResultOK(e) ==
     /\ phase = "built"
     /\ IF ~e.built THEN MayRefuse(cfg)
-       ELSE NamesOK(e) /\ ParamsOK(e) /\ PolyOK(e) /\ FOK(e) /\ RvalsOK(e)
+       ELSE NamesOK(e) /\ DepOK(e) /\ ParamsOK(e) /\ PolyOK(e) /\ FOK(e) /\ RvalsOK(e)
 
 TStep ==
     /\ verdict = "none" /\ pos <= Len(Traces[tid])
@@ -61,6 +62,7 @@ Clause ==
       ELSE IF phase # "built" THEN "notbuilt"
       ELSE IF ~e.built THEN "build"
       ELSE IF ~NamesOK(e) THEN "names"
+      ELSE IF ~DepOK(e) THEN "dep"
       ELSE IF ~ParamsOK(e) THEN "params"
       ELSE IF ~PolyOK(e) THEN "poly"
       ELSE IF ~FOK(e) THEN "f"
